@@ -73,4 +73,8 @@ theorem store_chunk_leaves_other_chunks_alone (cfg : Cfg) (fs fs' : FS) (key : S
     fetchChunk fs' key' c' = fetchChunk fs key' c' :=
   store_chunk_frame cfg fs fs' key c buf mime ow hs key' c' hne
 
+/-- non-vacuity of the frame theorem: a store that succeeds -/
+example : ∃ fs', storeChunk ⟨true, false⟩ [] "k" (0, 1, 0, 1, 0, 1) [1] "application/octet-stream" true = .ok fs' :=
+  ⟨_, rfl⟩
+
 end NgVerif.Props.C12
